@@ -20,32 +20,37 @@ PROP = {'gen': ['base64'],
  'corr_check': 'SNT.Corr.C11Corr.c11_check (model Image/Kitty.v vs surf_n_term::KittyImageHandler::{draw, erase, handle}; property '
                'predicate Image/KittySpec.v check_history = independent kitty-graphics parser + terminal-side store applied to the '
                "implementation's bytes)",
- 'level_text': 'Coq theorems over an executable model of KittyImageHandler (draw / erase / handle, ids, chunking) read through an '
-               'independent protocol side (parser of the escape codes, RFC 4648 decoder, terminal store of images and placements): '
-               'payload of one draw = row-major RGBA with declared s, v, chunks <= 4096, multiples of four, m=1 exactly on non-final '
-               'chunks (any image size, by induction over the chunking); over all histories no protocol error, every placement names '
-               'a transmitted image, pixels transmitted at most once between error responses; placement ids in 1..2^32-1, invertible '
-               'and injective for coordinates < 65536 except the forced pair (65534,65535)/(65535,65535) (pigeonhole theorem), erase removes '
-               'exactly the placement draw created; the model passes the very predicate applied to the implementation on every '
-               'well-formed case outside the known class pid-corner (the last position shares its placement id). Image ids are '
-               'allocated per content (two contents never share one: C11_ids_distinct, probe_fresh). Pixels are transmitted at most '
-               'once BETWEEN ERROR RESPONSES naming the id (C11_once_between_errors), not once per handler lifetime. Constants regenerated from the source each run; model tied to the code by the byte-for-byte '
-               'correspondence run.',
+ 'level_text': 'Coq theorems over an executable model of KittyImageHandler (draw / erase / handle, id allocation, chunking) read '
+               'through an independent protocol side (parser of the escape codes, RFC 4648 decoder, terminal store of images and '
+               'placements): payload of one draw = row-major RGBA with declared s, v, chunks <= 4096, multiples of four, m=1 exactly '
+               'on non-final chunks (any image size, by induction over the chunking); over all histories, with genuine or spurious '
+               'error responses in any mix, no protocol error, every placement names a transmitted image, pixels transmitted at most '
+               'once BETWEEN ERROR RESPONSES naming the id (C11_once_between_errors), not once per handler lifetime; image and '
+               'placement ids in 1..2^32-1; image ids are allocated per content, two contents never share one (C11_ids_distinct); '
+               'placement ids invertible and injective for coordinates < 65536 except the forced pair (65534,65535)/(65535,65535); '
+               'draw adds and erase removes exactly one placement (C11_pairing_*); the model passes the very predicate applied to '
+               'the implementation on every well-formed case outside the known class pid-corner '
+               '(C11_model_meets_predicate_outside_known_classes). Audited but not counted: 7 lemmas (pigeonhole for placement ids, '
+               'defect pins, the resolved id collision) and 7 non-vacuity examples. Constants regenerated from the source each run; '
+               'model tied to the code by the byte-for-byte correspondence run.',
  'level_note': 'Trusted: Coq kernel + vm_compute; translate/kitty.py, translate/tables.py; hand-written model validated by the '
                'correspondence run; Image/KittySpec.v as the reading of the kitty graphics protocol document; Surface::hash modelled '
-               '(fnv-1a, Image/Fnv.v) and compared with the crate on every case; no collision of the full 64-bit hash between the '
-               'contents of one history, histories shorter than 2^32-1 calls (hypotheses of C11_model_meets_predicate_...). No axioms (Print Assumptions: closed; coqchk clean).',
+               '(fnv-1a, Image/Fnv.v) and compared with the crate on every case. Hypotheses of C11_model_meets_predicate_...: no '
+               'collision of the full 64-bit hash between the contents of one history, histories shorter than 2^32-1 calls. Defects '
+               'found and fixed: placement id 0 (82493c7+adbe35d), image id 0 (ce05ea8), empty image placed (10e9b17), two contents '
+               'sharing one id (c7a01ef). Open known finding: pid-corner (the last two positions share a placement id; forced by '
+               'counting, require_agree). No axioms (Print Assumptions: closed; coqchk clean).',
  'technique': 'Coq proof (induction over chunking and over histories, parser/printer round trip, refinement to a terminal-side store) '
               '+ regenerated constants + model/implementation correspondence',
  'design_ref': 'DESIGN.md 6.11',
- 'n_quick': 400,
+ 'n_quick': 300,
  'n_thorough': 6000,
  'shard': 25,
  'level': 'proof',
  'trusted_base': [KERNEL,
                   'translate/kitty.py: KITTY_MAX_ID, KITTY_MAX_DIM and the argument of payload.chunks(..) are re-extracted from '
                   'src/image.rs on every run (Gen/KittyConst.v); translate/tables.py for the base64 tables (Gen/TabBase64.v)',
-                  'hand-written model Image/Kitty.v of KittyImageHandler::{draw, erase, handle}, kitty_image_id, kitty_placement_id, '
+                  'hand-written model Image/Kitty.v of KittyImageHandler::{draw, erase, handle, image_id}, kitty_placement_id, '
                   'kitty_placement_to_pos, tied to the code by the correspondence run on the bytes of every call',
                   'Image/KittySpec.v: the reading of the kitty graphics protocol document (parser, terminal-side store) the theorems are '
                   'stated against',
